@@ -298,6 +298,9 @@ class Fn:
             d //= 2
             e -= 1
         m = fr.numerator
+        while m != 0 and m % 2 == 0:      # normal form: odd mantissa (DBL_MAX = (2^53 - 1) * 2^971)
+            m //= 2
+            e += 1
         return "(ofD O (%d) (%d))" % (m, e)
 
     def expr(self, n, env):
